@@ -1,6 +1,7 @@
 import PtnModel.Driver.MPS
 import PtnModel.Driver.Evolution
-import PtnModel.Model.Ops
+import PtnModel.Model.OpsX
+import PtnModel.Driver.OpGraph
 open Lean
 namespace Ptn.Drv.HistDrv
 open Ptn.Hist Ptn.Drv.MPSDrv Ptn.Drv.Krylov
@@ -41,6 +42,34 @@ def parseHOp (j : Json) : R (HOp GRat Rat) := do
   | "dmrg2" => pure (.dmrg2 (← fNat j "iH") (← fNat j "i") (← fNat j "numsteps") (← fNat j "numiter") (← parseRat (← fld j "tol")))
   | h => throw s!"unknown history op {h}"
 
+/-- a graph with `GRat` coefficients, built through the Python constructors (`Driver/OpGraph.buildGraph` over `GRat`) -/
+def buildGraphG (r : Ptn.Drv.OpGraph.RawGraph) : Except Err (Og.Graph GRat) := do
+  let ns ← r.nodes.mapM fun (nid, ein, eout, q) => Og.Node.mk' nid ein eout q
+  let es ← r.edges.mapM fun (eid, nids, opics) =>
+    match nids with
+    | [a, b] => pure (Og.Edge.mk' eid (a, b) (opics.map fun p => (p.1, (⟨p.2, 0⟩ : GRat))))
+    | _ => throw Err.value
+  Og.Graph.mk' ns es r.term
+
+/-- creating operations (`Model/OpsX.lean`); everything else is an operation of `Model/Ops.lean` -/
+def parseXOp (j : Json) : R (XOp GRat Rat) := do
+  match (← fStr j "h") with
+  | "new_mps" => pure (.newMps (← fList j "qd" getInt) (← fList j "qD" parseIntList) (← parseGRat (← fld j "fill")))
+  | "new_mpo" => pure (.newMpo (← fList j "qd" getInt) (← fList j "qD" parseIntList) (← parseGRat (← fld j "fill")))
+  | "identity" => pure (.identity (← fList j "qd" getInt) (← fNat j "L") (← parseGRat (← fld j "scale")))
+  | "from_opgraph" => do
+      let raw ← Ptn.Drv.OpGraph.getRawGraph (← fld j "graph")
+      let g ← match buildGraphG raw with
+        | .ok g => pure g
+        | .error e => throw s!"graph constructor raised {e.toString}"
+      let opmap ← fList j "opmap" fun p => do
+        let a ← getArr p
+        if a.size != 2 then throw "opmap arity"
+        pure ((← getInt a[0]!), (← getList a[1]! fun r => getList r parseGRat))
+      pure (.fromOpGraph (← fList j "qd" getInt) g opmap)
+  | "resplit" => pure (.resplit (← fNat j "i") (← fNat j "site") (← fNat j "distr") (← parseRat (← fld j "tol")))
+  | _ => pure (.base (← parseHOp j))
+
 def kernelsOf (k : Kernels) (kk : KK) : StepKernels GRat Rat :=
   ⟨k.dqr, svdK k, dabs k, GRat.divR, k.drfun "sqrt", kk.dnorm, kk.deigh, kk.dexp, kk.dexpm, ⟨1 / 2, 0⟩⟩
 
@@ -55,14 +84,14 @@ def handle : Handler := fun op j =>
   match op with
   | "hist.run" => some do
       let pool ← fList j "pool" parseObj
-      let steps ← fList j "steps" (fun s => do pure ((← parseHOp s), (← parseKernels s), (← parseKK s)))
+      let steps ← fList j "steps" (fun s => do pure ((← parseXOp s), (← parseKernels s), (← parseKK s)))
       -- run step by step; stop at the first error
       let mut p := pool
       let mut out : Array Json := #[]
       let mut stop := false
       for (hop, k, kk) in steps do
         if !stop then
-          match step (kernelsOf k kk) p hop with
+          match xstep (kernelsOf k kk) p hop with
           | .error e =>
             out := out.push (jObj [("ok", Json.bool false), ("err", Json.str e.toString)])
             stop := true
